@@ -214,7 +214,8 @@ def check_obj(obj, label: str, problems: List[Dict[str, Any]], counters: Dict[st
             problems.append({"kind": "copy-shares-storage", "what": label + " (source mutated)"})
     if is_msg:
       for hcls, stamp, hprof in ((get_header_cls(), None, "plain"), (get_header_cls(True), (1700000000, 4242), "timecode"), (get_header_cls(True), (0, 4242), "timecode-unstamped"),
-                                 (get_header_cls(True), (0, 0), "timecode-zero"), (get_header_cls(), None, "plain-edges"), (get_header_cls(True), (2 ** 32 - 1, 2 ** 32 - 1), "timecode-edges")):
+                                 (get_header_cls(True), (0, 0), "timecode-zero"), (get_header_cls(), None, "plain-edges"), (get_header_cls(True), (2 ** 32 - 1, 2 ** 32 - 1), "timecode-edges"),
+                                 (get_header_cls(), None, "plain-unfilled"), (get_header_cls(True), (0, 0), "timecode-unfilled")):
         tc = hcls is not get_header_cls()
         if hprof not in ("plain", "timecode") and "=" in label:
             continue  # the four extra header profiles go with the whole-object value profiles, not with every single-field object
@@ -228,6 +229,11 @@ def check_obj(obj, label: str, problems: List[Dict[str, Any]], counters: Dict[st
               h.dest_mod_id = 3
               h.num_data_bytes = ctypes.sizeof(obj)
               h.version = ver
+              if hprof.endswith("unfilled"):
+                  # a header as it comes out of the constructor: only the type (and the version under test) is set, every count is zero
+                  h = hcls()
+                  h.msg_type = obj.type_id
+                  h.version = ver
               if hprof.endswith("edges"):
                   h.msg_count = -2 ** 31
                   h.send_time = -0.0
